@@ -129,6 +129,22 @@ def invariant_of_test(prog, rep, fn, test):
     return True if _INVARIANT_CACHE['aci'][1] else None
 
 
+def callers_of(cls, fn):
+    """(class, method) pairs of the class (and of the classes that inherit the helper) that call self.<fn>(...)"""
+    out = []
+    classes = [cls] + cls.prog.subclasses(cls, strict=True)
+    for c in classes:
+        for meth in c.methods.values():
+            if meth is fn:
+                continue
+            for n in ast.walk(meth):
+                if isinstance(n, ast.Call) and isinstance(n.func, ast.Attribute) and n.func.attr == fn.name and \
+                        isinstance(n.func.value, ast.Name) and n.func.value.id in ('self', 'cls'):
+                    out.append((c, meth))
+                    break
+    return out
+
+
 def find_run_calls(fn):
     out = []
     sess = session_names(fn)
@@ -188,6 +204,23 @@ def run(prog, rep):
 
     nsites = 0
     json_sites = []
+    param_sites = []
+
+    def class_const_of(cls):
+        """self.NAME / cls.NAME reads that are fixed by a class-level assignment (never re-bound on the instance)"""
+        if cls is None:
+            return None
+        def look(attr, _cls=cls):
+            for c in [_cls] + [x for x in _cls.mro() if x is not _cls]:
+                if attr in c.assigns:
+                    for k in [_cls] + list(_cls.mro()):
+                        for meth in k.methods.values():
+                            for n in ast.walk(meth):
+                                if isinstance(n, ast.Attribute) and n.attr == attr and isinstance(n.ctx, (ast.Store, ast.Del)):
+                                    return None
+                    return c.assigns[attr]
+            return None
+        return look
     for modname in MODULES:
         mod = prog.module(modname)
         for m, cls, fn in prog.all_functions():
@@ -209,7 +242,8 @@ def run(prog, rep):
             def module_const(name, _mod=m):
                 return _mod.assigns.get(name)
             interp = Interp(fn, resolver=resolver, module_const=module_const, unroll=UNROLL, max_paths=(512 if len(UNROLL) <= 2 else 60000),
-                            assume=(lambda t_, _fn=fn: invariant_of_test(prog, rep, _fn, t_)))
+                            assume=(lambda t_, _fn=fn: invariant_of_test(prog, rep, _fn, t_)),
+                            class_const=class_const_of(cls))
             try:
                 sites = interp.run()
             except AnalysisError as e:
@@ -226,6 +260,12 @@ def run(prog, rep):
                 seen_render = set()
                 for s in ss:
                     q = s.query
+                    if isinstance(q, Atom) and q.origin.startswith('param:') and cls is not None and \
+                            q.origin[6:] in [a.arg for a in fn.args.posonlyargs + fn.args.args + fn.args.kwonlyargs] and \
+                            callers_of(cls, fn):
+                        # the statement is handed to this helper by its callers: analysed once per caller below
+                        param_sites.append((mod, cls, fn, fq, call))
+                        break
                     if isinstance(q, (Atom, Opaque)) and not isinstance(q, S):
                         # statement comes from a data file (rules / index commands)
                         json_sites.append((mod, cls, fn, fq, call, s))
@@ -238,6 +278,44 @@ def run(prog, rep):
                         continue
                     seen_render.add(key)
                     check_template(rep, mod, fq, call, q, s.kwargs, bool(s.star_kwargs))
+
+    # statements handed to a driver-calling helper as an argument: the caller is evaluated with the helper inlined
+    for mod, cls, fn, fq, call in param_sites:
+        for ocls, caller in callers_of(cls, fn):
+            cfq = f'{ocls.name}.{caller.name}'
+            rep.instance('SITES', f'{cfq} -> {fq}: {norm(call, 100)}')
+            def resolver2(c, _cls=ocls, _mod=ocls.module, _fn=fn):
+                r = resolve_helper(prog, _cls, _mod, c)
+                if r is None:
+                    return None
+                h, owner, skip = r
+                if h is _fn:
+                    return h, skip
+                if find_run_calls(h) or any(isinstance(x, (ast.Yield, ast.YieldFrom)) for x in ast.walk(h)):
+                    return None
+                return h, skip
+            interp = Interp(caller, resolver=resolver2, module_const=(lambda name, _m=ocls.module: _m.assigns.get(name)),
+                            unroll=UNROLL, max_paths=(512 if len(UNROLL) <= 2 else 60000),
+                            assume=(lambda t_, _fn=caller: invariant_of_test(prog, rep, _fn, t_)),
+                            class_const=class_const_of(ocls))
+            try:
+                sites = interp.run()
+            except AnalysisError as e:
+                raise AnalysisError(f'{ocls.module.relpath}:{caller.lineno} {cfq}: {e}')
+            ss = [s for s in sites if s.call is call]
+            if not ss:
+                raise AnalysisError(f'{loc(mod, call)} {fq}: session.run site not reached from caller {cfq}')
+            seen_render = set()
+            for s in ss:
+                q = s.query
+                if not isinstance(q, S):
+                    raise AnalysisError(f'{loc(mod, call)} {fq}: statement handed in by {cfq} is not a string template '
+                                        f'({type(q).__name__} {q!r})')
+                key = q.render()
+                if key in seen_render:
+                    continue
+                seen_render.add(key)
+                check_template(rep, mod, f'{cfq} -> {fq}', call, q, s.kwargs, bool(s.star_kwargs))
 
     # statements read from JSON data files
     handled = set()
